@@ -387,10 +387,22 @@ pub fn run_c10(tier: Tier) -> i32 {
     let mut c = cfg_liq(true, true, 100_000);
     c.n_vamms = 2;
     let mk = |c: Cfg, d: usize| Exp { setup: Some(setup_c10), name: "3 traders 2 vamms".into(), cfg: c, traders: T3.to_vec(), seeds: vec![vec![], seed3.clone(), seed4.clone()], alpha: Alpha::Dyn(alpha_c10), depth: d, init_mon: Value::Null };
+    let seed5 = vec![
+        Act::open("alice", false, 20 * D, 10 * D),
+        Act::open("carol", true, SIZE_S.0, SIZE_S.1),
+        Act::blk(15),
+        Act::open("bob", true, 20 * D, 1 * D),
+        Act::blk(1200),
+        px_at_spot(),
+    ];
+    let mk_full = |c: Cfg, d: usize| Exp { setup: Some(setup_c10), name: "3 traders 2 vamms, partial ratio 100%".into(), cfg: c, traders: T3.to_vec(), seeds: vec![seed5.clone(), seed4.clone()], alpha: Alpha::Dyn(alpha_c10), depth: d, init_mon: Value::Null };
+    let mut cfull = c.clone();
+    cfull.plr = D;
     let mut exps = vec![];
     match tier {
         Tier::Quick => {
             exps.push(mk(c, 3));
+            exps.push(mk_full(cfull, 2));
         }
         Tier::Thorough => {
             exps.push(mk(c.clone(), 4));
@@ -400,6 +412,7 @@ pub fn run_c10(tier: Tier) -> i32 {
             let mut c0 = c.clone();
             c0.plr = 0;
             exps.push(mk(c0, 3));
+            exps.push(mk_full(cfull, 3));
         }
     }
     run_exps(&mut run, step_c10, exps, |_| {});
@@ -743,6 +756,7 @@ pub fn run_c07(tier: Tier) -> i32 {
             exps.push(Exp::new("liveness", mk(false, 250_000, false), alpha.clone(), seeds.clone(), 3));
             exps.push(Exp::new("liveness", mk(true, 0, true), alpha.clone(), seeds.clone(), 2));
             exps.push(Exp::new("liveness in the liquidation band", cfg_liq(true, false, 250_000), alpha.clone(), seeds.clone(), 3));
+            exps.push(Exp::new("liveness in the liquidation band", cfg_liq(false, false, D), alpha.clone(), seeds.clone(), 2));
             let mut cb = mk(true, 0, false);
             cb.fluct = 50_000;
             let mut band_alpha = alpha.clone();
